@@ -399,7 +399,8 @@ INFO['C17'] = {
               'configuration values (REAL mode), read-back layer by layer and behavioural tie through the lookup; two nested '
               'backup layers over the probe (N,M sampled), all configuration bit patterns; depth-5 stack '
               'affine<linear<clamp<strided<array>>>>: every layer read back, field rebuilt from reported configurations + storage, '
-              'equal at a symbolic lattice coordinate, 2x2 storage with symbolic contents',
+              'equal at a symbolic lattice coordinate, 2x2 storage with symbolic contents; accessor walk (get_configuration == stored '
+              'configuration, get_backend == next layer) over the 21 stacks of the IO catalogue, all configuration values',
     'outside': 'stacks other than the listed ones; storage larger than 2x2', 'cuts': 'none', 'assumptions': [],
 }
 INFO['C05'] = {
@@ -430,6 +431,8 @@ def units_C17(tier, seed):
         U += unit(f'c17_helper_{k + 1}', H, f'helper_h<{k}>()', 'INT', sites=[1, 2], diff=(k == 3), flavours=('rel', 'dbg') if k in (2, 9) else ('rel',))
     for t in ('float', 'double'):
         U += unit(f'c17_stack5_{t}', H, f'stack5_h<{t}>()', sites=[1, 2, 3, 4, 5, 6, 7], flavours=('rel', 'dbg'), diff=True, weight=10)
+    for k in IO_STACKS + IO_LAYERS:
+        U += unit(f'c17_accessors_{k}', H, f'accessors_h<{k}>()', sites=[1], diff=(k in (4, 5, 6)), flavours=('rel', 'dbg') if k in (4, 6) else ('rel',))
     for n, m in ((1, 1), (2, 3), (3, 2)) + (((4, 4), (1, 4)) if th else ()):
         U += unit(f'c17_backups_{n}_{m}', H, f'backups_h<{n},{m}>()', sites=[1], diff=(n == 2))
     return U
